@@ -163,6 +163,25 @@ func (c *checker) judge(where string, raw []byte, teid uint32, wantExt bool, pdu
 	}
 }
 
+// Stage is what a check stage living in another package (the end-to-end re-injection stage of fworld, which
+// imports this package for the decoder) needs from the checker.
+type Stage interface {
+	Judge(where string, raw []byte, teid uint32, wantExt bool, pduType, qfi uint8, pl []byte, replay map[string]interface{})
+	Report(v evid.Violation)
+	Eval()
+}
+
+// Reinject is registered by fworld.
+var Reinject func(c Stage, tier string) int
+
+func (c *checker) Judge(where string, raw []byte, teid uint32, wantExt bool, pduType, qfi uint8, pl []byte, replay map[string]interface{}) {
+	c.judge(where, raw, teid, wantExt, pduType, qfi, pl, replay)
+}
+func (c *checker) Report(v evid.Violation) { c.run.Report(v) }
+func (c *checker) Eval()                   { c.evals++ }
+func Payload(n int) []byte                 { return payload(n) }
+func Head(b []byte) []byte                 { return head(b) }
+
 func head(b []byte) []byte {
 	if len(b) > 20 {
 		return b[:20]
@@ -269,9 +288,16 @@ func Run(tier string) {
 			}
 		}
 	}
+	out.Close()
+	gnb.Close()
+	sess := 0
+	if Reinject != nil {
+		sess = Reinject(c, tier)
+	}
+	run.Set("reinject_sessions", sess)
 	run.Set("evaluations", c.evals)
 	run.Set("distinct_nontrivial", c.nontr)
-	run.Set("rule", "full product QFI 0..63 x PDU type 0..15 x {with,without PDU Session Container} x 6 TEIDs x payload length 0..64; all payload lengths 0..MTU against 8 (QFI,type) pairs; WritePacket for QER QFI 0..63 and no QER x 6 payload lengths x 3 TEIDs through a real UDP socket; every case is a distinct input; non-trivial iff it has an extension header or a non-empty payload")
+	run.Set("rule", "full product QFI 0..63 x PDU type 0..15 x {with,without PDU Session Container} x 6 TEIDs x payload length 0..64; all payload lengths 0..MTU against 8 (QFI,type) pairs; WritePacket for QER QFI 0..63 and no QER x 6 payload lengths x 3 TEIDs through a real UDP socket; end-to-end re-injection (real PfcpServer + gtp5g driver over the simulated kernel): one buffering FAR serving two PDRs whose own QERs carry QFI q1, q2 in {none, 0..63} (quick: every q against {none,0,1,15,16,37,63} in both roles; thorough: the full 65x65 product), BUFF->FORW, each datagram judged against its own PDR's flow; every case is a distinct input; non-trivial iff it has an extension header or a non-empty payload")
 	run.Set("exhaustive", true)
 	run.Set("samples", c.smp.List())
 	run.Set("bound", fmt.Sprintf("flags 0x34 only; payload <= %d octets", top))
